@@ -111,6 +111,56 @@ def WF (lead : Bytes) (es : List Elem) : Bool := allWs lead && es.all Elem.wf
 def view (es : List Elem) (k : Nat) : Option Bytes :=
   es.foldl (fun acc e => if e.item.slot = k then some e.item.value else acc) none
 
+
+/-! ### the full list grammar: extension parameters and empty list elements -/
+
+def toLowerB (c : UInt8) : UInt8 := if 65 ≤ c.toNat ∧ c.toNat ≤ 90 then UInt8.ofNat (c.toNat + 32) else c
+
+/-- an element of the `#auth-param` list: a parameter MHD knows, an extension parameter (any other name),
+    or an empty list element -/
+inductive GElem
+  | known (e : Elem)
+  | ext (name : Bytes) (r : ItemR) (value : Bytes)
+  | empty (ws4 : Bytes)
+  deriving DecidableEq, Repr
+
+def GElem.ws4 : GElem → Bytes
+  | .known e => e.r.ws4
+  | .ext _ r _ => r.ws4
+  | .empty w => w
+
+def GElem.render : GElem → Bytes
+  | .known e => renderElem e
+  | .ext n r v => n ++ r.ws1 ++ 61 :: (r.ws2 ++ renderValue v r.form ++ r.ws3)
+  | .empty _ => []
+
+def renderGList : List GElem → Bytes
+  | [] => []
+  | [g] => g.render
+  | g :: g' :: gs => g.render ++ 44 :: (g.ws4 ++ renderGList (g' :: gs))
+
+/-- bytes of an extension parameter name as far as the C scanner is concerned (superset of `tchar`) -/
+def nameByte (c : UInt8) : Bool := !isDelim c && c ≠ 0 && c ≠ 34
+
+def GElem.wf : GElem → Bool
+  | .known e => e.wf
+  | .ext n r v =>
+    !n.isEmpty && n.all nameByte && paramNames.all (fun kn => n.map toLowerB != kn.map toLowerB) &&
+    allWs r.ws1 && allWs r.ws2 && allWs r.ws3 && allWs r.ws4 &&
+    (match r.form with
+     | .token => !v.isEmpty && v.all (fun c => tokByte c && c ≠ 34)
+     | .quoted _ => v.all (· ≠ 0))
+  | .empty w => allWs w
+
+def viewG (gs : List GElem) (k : Nat) : Option Bytes :=
+  gs.foldl (fun acc g => match g with
+    | .known e => if e.item.slot = k then some e.item.value else acc
+    | _ => acc) none
+
+def renderG (lead : Bytes) (gs : List GElem) : Bytes := lead ++ renderGList gs
+
+def WFG (lead : Bytes) (gs : List GElem) : Bool := allWs lead && gs.all GElem.wf
+
 /-! ### reference meaning of enumerated values (RFC 7616: tokens compared caselessly) -/
 
 def algoSem : Option Bytes → Nat
